@@ -4851,8 +4851,9 @@ def translate(repo, overrides):
         L.append(f"end {cur}")
         L.append("")
     L += seq_section(toks)  # third extension: sequences (Vec, iterators, loops, from_fn, library calls as EXTERNs)
+    L += sched_section(toks, lambda rel: raw_of[rel])  # [schedule extension] fourth increment: schedule.rs
     L.append("end OH.Generated.Arith")
-    return "\n".join(L).replace("import OH.Model.RustInt\n", "import OH.Model.RustInt\nimport OH.Model.RustSeq\n", 1) + "\n"
+    return "\n".join(L).replace("import OH.Model.RustInt\n", "import OH.Model.RustInt\nimport OH.Model.RustSeq\nimport OH.Model.RustVec\n", 1) + "\n"
 
 
 # ------------------------------------------------------------------------------------------------
@@ -5838,6 +5839,1170 @@ def seq_section(toks):
         L += lines + [""]
     if cur is not None:
         L += [f"end {cur}", ""]
+    return L
+
+
+# ------------------------------------------------------------------------------------------------
+# [schedule extension] fourth increment: opening-hours/src/schedule.rs (DESIGN §8.9, notes/RS2LEAN4-schedule.md).
+# `Vec<T>` with an index (`v[i]`, writes through `v[i].a.b`, `remove`, `pop`, `push`, `extend`, `last`, `len`), `Peekable`
+# iterators (`peek`/`next`), general `while c { .. }` / `while let Some(x) = e { .. }` loops and recursion with an
+# explicit `fuel` (the theorems prove a bound: termination is part of the statement), `&mut self` methods, `assert!` with
+# a message, `std::mem::take`, `match` on an `Option`, iterator chains `filter / map / cloned / filter_map / all /
+# collect` with closures (pure ones are list functions; a closure writing to a captured variable threads it: `filterMapS`).
+# The types `ExtendedTime`, `RuleKind`, `UniqueSortedVec<Arc<str>>` are ABSTRACT here: type parameters `Time` (with the
+# derived comparison operators and `==`, about which nothing else is assumed), `Kind` (`==`), `Comments`; their constants
+# and library functions are NAMED parameters of the generated definitions (`MIDNIGHT_00`, `RuleKind_Closed`, `ext_union`,
+# ..), passed BY NAME in the theorems.  Support library: OH/Model/RustVec.lean.  Same rule: anything else is an error
+# naming file:line.  A separate front end (`SchedParser` extends the expression grammar of `SeqParser`, `SchedGen` is a
+# typed CPS generator like `SeqGen`).
+
+F_SCHED = "opening-hours/src/schedule.rs"
+# (impl type, trait or None, Rust name) in dependency order (a callee before its callers)
+SCHED_TARGETS = [
+    ("TimeRange", None, "new"),
+    ("Schedule", None, "from_ranges"),
+    ("Schedule", None, "is_empty"),
+    ("Schedule", None, "is_always_closed"),
+    ("Schedule", None, "insert"),
+    ("Schedule", None, "addition"),
+    ("IntoIter", None, "new"),
+    ("IntoIter", None, "pre_yield"),
+    ("IntoIter", "Iterator", "next"),
+]
+# structs of schedule.rs that are translated (declarations read from the source)
+SCHED_STRUCTS = ["TimeRange", "Schedule", "IntoIter"]
+# abstract types: Rust name -> (kind, Lean type parameter, file of the declaration, derives that must be present)
+SCHED_ABSTRACT = {
+    "ExtendedTime": ("atime", "Time", F_EXT, {"PartialOrd", "Ord", "PartialEq", "Eq", "Clone", "Copy"}),
+    "RuleKind": ("akind", "Kind", "opening-hours-syntax/src/rules/mod.rs", {"PartialEq", "Eq", "Clone", "Copy"}),
+}
+# constants of abstract types: path -> (type kind, imported name that must be in scope)
+SCHED_CONSTS = {
+    "ExtendedTime::MIDNIGHT_00": ("atime", "MIDNIGHT_00"), "ExtendedTime::MIDNIGHT_24": ("atime", "MIDNIGHT_24"),
+    "RuleKind::Closed": ("akind", "RuleKind_Closed"), "RuleKind::Open": ("akind", "RuleKind_Open"), "RuleKind::Unknown": ("akind", "RuleKind_Unknown"),
+}
+SCHED_IMPORTS = {("opening_hours_syntax", "ExtendedTime"), ("opening_hours_syntax", "RuleKind"), ("opening_hours_syntax::sorted_vec", "UniqueSortedVec"),
+                 ("std::sync", "Arc"), ("std::ops", "Range"), ("std::iter", "Peekable")}
+SCHED_BINDER = ("{Time Kind Comments : Type} [LT Time] [LE Time] [DecidableLT Time] [DecidableLE Time] [DecidableEq Time] [DecidableEq Kind]")
+SCHED_EXT_DOC = {
+    "ext_union": "the library function `UniqueSortedVec::union` (sorted_vec.rs, not translated; its contract is C20's)",
+    "ext_comments_new": "`UniqueSortedVec::new()` (the empty vector)",
+    "ext_comments_default": "`UniqueSortedVec::default()` (what `std::mem::take` leaves behind: the empty vector)",
+    "ext_sort_unstable_by_key_range_start": "the library function `v ↦ v after v.sort_unstable_by_key(|rng| rng.range.start)` (contract: a permutation sorted by `range.start`)",
+}
+S_TIME, S_KIND, S_COMM, S_USZ = T("atime"), T("akind"), T("acomm"), tint("usize")
+
+
+def S_ST(name):
+    return T("st", name)
+
+
+_seq_lty_before_sched, _seq_show_before_sched = seq_lty, seq_show
+
+
+def seq_lty(t, top=True):  # noqa: F811  [schedule extension] the types of schedule.rs, then the sequence types
+    k = t[0]
+    if k in ("atime", "akind", "acomm"):
+        return {"atime": "Time", "akind": "Kind", "acomm": "Comments"}[k]
+    if k == "st":
+        s = f"{t[1]} Time Kind Comments"
+        return s if top else f"({s})"
+    return _seq_lty_before_sched(t, top)
+
+
+def seq_show(t):  # noqa: F811
+    if t is not None and t[0] in ("atime", "akind", "acomm", "st"):
+        return {"atime": "ExtendedTime", "akind": "RuleKind", "acomm": "UniqueSortedVec<Arc<str>>"}.get(t[0]) or t[1]
+    return _seq_show_before_sched(t)
+
+
+class SchedParser(SeqParser):
+    """`SeqParser` plus: the types of schedule.rs; receivers `self` / `&self` / `&mut self`; statements `while c { .. }`,
+    `while let Some(x) = e { .. }`, `place op= e;`, `assert!(c, "msg");`; expressions `&mut place`, `match e { None => a,
+    Some(x) => b }`, closures with `mut` parameters, turbofish `.collect::<Vec<_>>()`."""
+
+    def type_(self):
+        tk = self.peek()
+        if tk.text in SCHED_ABSTRACT:
+            self.i += 1
+            return T(SCHED_ABSTRACT[tk.text][0])
+        if tk.text == "UniqueSortedVec":
+            for x in ("UniqueSortedVec", "<", "Arc", "<", "str"):
+                self.eat(x)
+            self.close_angle()
+            self.close_angle()
+            return S_COMM
+        if tk.text in SCHED_STRUCTS:
+            self.i += 1
+            return S_ST(tk.text)
+        if tk.text == "Peekable":
+            for x in ("Peekable", "<", "std", "::", "vec", "::", "IntoIter", "<"):
+                self.eat(x)
+            inner = self.type_()
+            self.close_angle()
+            self.close_angle()
+            return T("iter", inner)
+        if tk.text == "Self" and self.peek(1).text == "::":
+            self.i += 2
+            self.eat("Item")
+            if getattr(self, "item_t", None) is None:
+                fail(self.where(tk), "`Self::Item` outside an `impl Iterator` with `type Item = ..;`")
+            return self.item_t
+        return SeqParser.type_(self)
+
+    def seq_fn(self):
+        line = self.eat("fn").line
+        name = self.ident()
+        if self.at("<"):
+            fail(self.where(), "generic functions are outside the translated subset (schedule functions)")
+        self.eat("(")
+        params, has_self, mut_self = [], False, False
+        while not self.at(")"):
+            if self.at("&") and self.peek(1).text == "mut" and self.peek(2).text == "self":
+                self.i += 3
+                has_self = mut_self = True
+            elif self.at("&") and self.peek(1).text == "self":
+                self.i += 2
+                has_self = True
+            elif self.at("self"):
+                self.i += 1
+                has_self = True
+            elif self.at("mut") and self.peek(1).text == "self":
+                fail(self.where(), "the receiver `mut self` is outside the translated subset")
+            else:
+                mut = False
+                if self.at("mut"):
+                    self.i += 1
+                    mut = True
+                pn = self.ident()
+                self.eat(":")
+                params.append((pn, self.type_(), mut))
+            if not self.at(")"):
+                self.eat(",")
+        self.eat(")")
+        self.eat("->")
+        ret = self.type_()
+        if self.at("where"):
+            fail(self.where(), "`where` clauses are outside the translated subset")
+        body = self.block()
+        return Node("fn", line, name=name, params=params, has_self=has_self, mut_self=mut_self, ret=ret, body=body, tparams={})
+
+    def block(self):
+        line = self.eat("{").line
+        stmts, tail = [], None
+        while not self.at("}"):
+            if tail is not None:
+                fail(self.where(), "statement after the tail expression")
+            tk = self.peek()
+            if self.at("let"):
+                stmts.append(self.seq_let())
+            elif self.at("while"):
+                stmts.append(self.sched_while())
+            elif self.at("assert") and self.peek(1).text == "!":
+                self.i += 2
+                self.eat("(")
+                c = self.expr()
+                self.eat(",")
+                m = self.peek()
+                if m.kind != "str" or not re.fullmatch(r'"[^"\\{}]*"', m.text):
+                    fail(self.where(), "`assert!` needs a plain string message (no format arguments)")
+                self.i += 1
+                if self.at(","):
+                    self.i += 1
+                self.eat(")")
+                self.eat(";")
+                stmts.append(Node("assertmsg", tk.line, c=c, msg=m.text[1:-1]))
+            elif self.at("return"):
+                self.i += 1
+                e = self.expr()
+                if not self.at("}"):
+                    self.eat(";")
+                stmts.append(Node("ret", tk.line, e=e))
+                if not self.at("}"):
+                    fail(self.where(), "statement after `return`")
+            elif self.at("if"):
+                e = self.primary(False)
+                if self.at("}"):
+                    tail = e
+                else:
+                    if self.at(";"):
+                        self.i += 1
+                    elif self.at(".") or self.at("?"):
+                        fail(self.where(), "a method call on an `if` expression is outside the translated subset")
+                    stmts.append(Node("exprstmt", e.line, e=e))
+            else:
+                e = self.expr()
+                t2 = self.peek()
+                if t2.kind == "op" and t2.text in ("=", "+="):
+                    self.i += 1
+                    rhs = self.expr()
+                    self.eat(";")
+                    stmts.append(Node("assign", t2.line, place=e, e=rhs, op=self.ASSIGN[t2.text]))
+                elif t2.kind == "op" and t2.text in self.ASSIGN:
+                    fail(self.where(), f"`{t2.text}` is outside the translated subset (schedule functions)")
+                elif self.at(";"):
+                    self.i += 1
+                    stmts.append(Node("exprstmt", e.line, e=e))
+                else:
+                    tail = e
+        self.eat("}")
+        return Node("block", line, stmts=stmts, tail=tail)
+
+    def sched_while(self):
+        line = self.eat("while").line
+        if self.at("let"):
+            self.i += 1
+            name, by_ref, _ = self.some_pattern()
+            if by_ref:
+                fail(self.where(), "`ref` in a `while let` pattern is outside the translated subset")
+            self.eat("=")
+            scrut = self.expr(nostruct=True)
+            return Node("while", line, name=name, c=scrut, body=self.block())
+        c = self.expr(nostruct=True)
+        return Node("while", line, name=None, c=c, body=self.block())
+
+    def unary(self, nostruct):
+        tk = self.peek()
+        if tk.kind == "op" and tk.text == "&" and self.peek(1).text == "mut":
+            self.i += 2
+            return Node("refmut", tk.line, e=self.unary(nostruct))
+        return SeqParser.unary(self, nostruct)
+
+    def postfix(self, nostruct):
+        e = self.primary(nostruct)
+        while True:
+            if self.at("["):
+                ln = self.eat("[").line
+                idx = self.expr()
+                self.eat("]")
+                e = Node("index", ln, e=e, idx=idx)
+            elif self.at("."):
+                ln = self.eat(".").line
+                name = self.ident()
+                if self.at("::"):
+                    if name != "collect":
+                        fail(self.where(), "turbofish is outside the translated subset (only `.collect::<Vec<_>>()`)")
+                    for x in ("::", "<", "Vec", "<", "_"):
+                        self.eat(x)
+                    self.close_angle()
+                    self.close_angle()
+                    a = self.args()
+                    e = Node("method", ln, e=e, name="collect", args=a, turbofish=True)
+                elif self.at("("):
+                    e = Node("method", ln, e=e, name=name, args=self.args())
+                else:
+                    e = Node("field", ln, e=e, name=name)
+            elif self.at("?"):
+                fail(self.where(), "`?` is outside the translated subset (schedule functions)")
+            else:
+                return e
+
+    def primary(self, nostruct):
+        tk = self.peek()
+        if tk.kind == "id" and tk.text == "match":
+            self.i += 1
+            scrut = self.expr(nostruct=True)
+            self.eat("{")
+            arms = []
+            for _ in range(2):
+                ptk = self.peek()
+                if self.at("None"):
+                    self.i += 1
+                    key, name = "none", None
+                elif self.at("Some"):
+                    name, by_ref, _ = self.some_pattern()
+                    if by_ref:
+                        fail(self.where(ptk), "`ref` in a `match` pattern is outside the translated subset")
+                    key = "some"
+                else:
+                    fail(self.where(), "a `match` that is not `match e { None => a, Some(x) => b }` is outside the translated subset")
+                if key in [a[0] for a in arms]:
+                    fail(self.where(ptk), "two arms of the same shape")
+                self.eat("=>")
+                if self.at("{"):
+                    body = self.block()
+                    if self.at(","):
+                        self.i += 1
+                else:
+                    bl = self.peek().line
+                    body = Node("block", bl, stmts=[], tail=self.expr())
+                    if not self.at("}"):
+                        self.eat(",")
+                arms.append((key, name, body))
+            self.eat("}")
+            return Node("matchopt", tk.line, scrut=scrut, arms=arms)
+        return SeqParser.primary(self, nostruct)
+
+    def closure(self, tk, move):
+        if move:
+            fail(self.where(tk), "`move` closures are outside the translated subset (schedule functions)")
+        params = []
+        if self.at("||"):
+            self.i += 1
+        else:
+            self.eat("|")
+            while not self.at("|"):
+                mut = False
+                if self.at("mut"):
+                    self.i += 1
+                    mut = True
+                ptk = self.peek()
+                if ptk.kind != "id" or ptk.text in ("ref",):
+                    fail(self.where(), "this closure parameter is outside the translated subset")
+                params.append((self.ident(), mut))
+                if self.at(":"):
+                    fail(self.where(), "annotated closure parameters are outside the translated subset")
+                if not self.at("|"):
+                    self.eat(",")
+            self.eat("|")
+        if self.at("{"):
+            body = self.block()
+        else:
+            bl = self.peek().line
+            body = Node("block", bl, stmts=[], tail=self.expr())
+        return Node("closure", tk.line, params=params, body=body, move=False)
+
+
+class SchedVar:
+    def __init__(self, ty, mut=False, blk=0):
+        self.ty, self.mut, self.blk = ty, mut, blk
+
+
+class SchedFrame:
+    """where a `return` goes: "fn" (`.ok v` / `.ok (v, self)`), "loop" (`.ok (.ret v state)`), "pure" (a closure: no `return`)"""
+
+    def __init__(self, kind, state=(), ret_ty=None):
+        self.kind, self.state, self.ret_ty = kind, list(state), ret_ty
+
+
+class SchedGen:
+    def __init__(self, fname, impl_ty, node, self_t, fields, sigs, uses, consts):
+        self.f, self.impl_ty, self.node, self.self_t, self.fields, self.sigs = fname, impl_ty, node, self_t, fields, sigs
+        self.uses, self.consts = uses, consts  # (module, name) imports of the file; associated constants of the impl type
+        self.lean_name = f"{impl_ty}.{node.name}"
+        self.n = self.nloop = self.nblk = 0
+        self.effects = 0  # number of emitted lines that can fail / write (a pure closure emits none)
+        self.externs = {}  # name -> Lean type
+        self.aux = []
+        self.fuel = False
+        self.recursive = False
+
+    def w(self, node):
+        return f"{self.f}:{node.line}"
+
+    def fresh(self):
+        self.n += 1
+        return f"tmp{self.n}"
+
+    def ext(self, name, lty_):
+        if name in self.externs and self.externs[name] != lty_:
+            fail(self.f, f"parameter {name} at two types")
+        self.externs[name] = lty_
+        return name
+
+    def ext_args(self, names):
+        return "".join(f" ({n} := {n})" for n in sorted(names))
+
+    def site(self, e):
+        return f'"{self.node.name}:{e.line}"'
+
+    # -- the top-level function
+    def gen(self):
+        f = self.node
+        env, params = {}, []
+        if f.has_self:
+            env["self"] = SchedVar(self.self_t, f.mut_self)
+            params.append(("self", self.self_t))
+        for pn, pt, mut in f.params:
+            if re.fullmatch(r"tmp\d+|ext_\w+|fuel|MIDNIGHT_\w+|RuleKind_\w+", pn):
+                fail(self.w(f), f"parameter name {pn} clashes with the translator's names")
+            if pt is None:
+                fail(self.w(f), "parameter of type `_`")
+            env[pn] = SchedVar(pt, mut)
+            params.append((pn, pt))
+        self.top_env = env
+        frame = SchedFrame("fn", ret_ty=f.ret)
+        self.params = params
+        body = self.block(f.body, env, frame, lambda term, ty, env2: self.emit_return(frame, term, ty, f.body))
+        if self.recursive:
+            self.fuel = True
+        ps = [f"({lname(n)} : {seq_lty(seq_unref(t))})" for n, t in params]
+        ps += [f"({n} : {t})" for n, t in sorted(self.externs.items())]
+        if self.fuel:
+            ps.append("(fuel : Nat)")
+        lrt = seq_lty(seq_unref(f.ret), False)
+        if f.mut_self:
+            lrt = f"({lrt} × {seq_lty(self.self_t, False)})"
+        sig = ", ".join((["&mut self" if f.mut_self else "self"] if f.has_self else []) + [f"{pn}: {seq_show(pt)}" for pn, pt, _ in f.params])
+        doc = f"/-- `{self.impl_ty}::{f.name}({sig}) -> {seq_show(f.ret)}` ({self.f}:{f.line})"
+        for n in sorted(self.externs):
+            if n in SCHED_EXT_DOC:
+                doc += f"; {n} = {SCHED_EXT_DOC[n]}"
+        if f.mut_self:
+            doc += "; `&mut self`: the result is paired with the new `self`"
+        if self.fuel:
+            doc += "; `fuel` bounds the iterations of each `while` loop / the depth of the recursion (running out is an error outcome)"
+        doc += " -/"
+        head = f"def {self.lean_name} {SCHED_BINDER} {' '.join(ps)} : R {lrt} :="
+        out = []
+        for a in self.aux:
+            out += a() + [""]
+        if self.recursive:
+            body = ["match fuel with", "| 0 => .error (.panic loopFuelExhausted)", "| fuel + 1 =>"] + ["  " + x for x in body]
+        out += [doc, head] + ["  " + x for x in body]
+        text = "\n".join(out).replace("⟦EXT⟧", self.ext_args(self.externs))
+        return text.split("\n")
+
+    def emit_return(self, frame, term, ty, node):
+        if frame.kind == "pure":
+            fail(self.w(node), "`return` inside a closure is outside the translated subset")
+        if not seq_same(ty, frame.ret_ty) or (ty is not None and ty[0] == "opt" and ty[1] is None and False):
+            fail(self.w(node), f"type mismatch: the function returns {seq_show(frame.ret_ty)}, found {seq_show(ty)}")
+        if frame.kind == "fn":
+            return [f".ok ({term}, self)"] if self.node.mut_self else [f".ok {atom(term)}"]
+        return [f".ok (.ret {atom(term)} {seq_tuple(frame.state)})"]
+
+    # -- blocks and statements
+    def block(self, b, env, frame, k, bind=None):
+        """lines of the statements of `b` followed by `k(tail term, type, env restricted to the outer names)`; `bind` = a
+        variable bound by the construct the block belongs to (a `while let` / `match` pattern), in the block's own scope"""
+        outer = dict(env)
+        self.nblk += 1
+        blk = self.nblk
+        if bind:
+            env = dict(env)
+            env[bind[0]] = SchedVar(bind[1], False, blk)
+
+        def done(term, ty, env2):
+            for n in env2:
+                if n in outer and env2[n] is not outer[n]:
+                    fail(self.w(b), f"`{n}` is shadowed inside a block and the outer variable is alive after it: outside the translated subset")
+            return k(term, ty, outer)
+
+        def go(i, env):
+            if i == len(b.stmts):
+                if b.tail is None:
+                    return done("()", UNIT, env)
+                return self.cg(b.tail, env, frame, done)
+            s = b.stmts[i]
+            rest = lambda env2: go(i + 1, env2)
+            if s.kind == "let":
+                if re.fullmatch(r"tmp\d+|ext_\w+|fuel|MIDNIGHT_\w+|RuleKind_\w+|self", s.name):
+                    fail(self.w(s), f"variable name {s.name} clashes with the translator's names")
+                if s.name in env and env[s.name].blk != blk:
+                    fail(self.w(s), f"`let {s.name}` shadows a variable of an enclosing block: outside the translated subset")
+
+                def bound(term, ty, env2):
+                    if ty is None or ty[0] == "unit":
+                        fail(self.w(s), "`let` of a value of type `()` / of unknown type")
+                    if s.has_ann and not seq_same(s.ann, ty):
+                        fail(self.w(s), f"type mismatch: annotation {seq_show(s.ann)}, value {seq_show(ty)}")
+                    if ty[0] == "iter" and ty[-1] == "lazy":
+                        fail(self.w(s), "an iterator chain that is not collected is outside the translated subset")
+                    env3 = dict(env2)
+                    env3[s.name] = SchedVar(ty, s.mut, blk)
+                    return [f"let {lname(s.name)} := {term}"] + rest(env3)
+                return self.cg(s.e, env, frame, bound)
+            if s.kind == "assign":
+                return self.assign(s, env, frame, rest)
+            if s.kind == "ret":
+                return self.cg(s.e, env, frame, lambda term, ty, env2: self.emit_return(frame, term, ty, s))
+            if s.kind == "while":
+                return self.while_(s, env, frame, rest)
+            if s.kind == "assertmsg":
+                def chk(c, tc, env2):
+                    if seq_unref(tc) != BOOL:
+                        fail(self.w(s), "`assert!` on a non-bool")
+                    self.effects += 1
+                    return [f"if {c} then ("] + ["  " + x for x in rest(env2)] + ["  )", f'else .error (.panic "{s.msg}")']
+                return self.cg(s.c, env, frame, chk)
+            if s.kind == "exprstmt":
+                def dropped(term, ty, env2):
+                    if ty is None or ty[0] != "unit":
+                        fail(self.w(s), f"a value of type {seq_show(ty)} is dropped by `;`: outside the translated subset")
+                    return rest(env2)
+                return self.cg(s.e, env, frame, dropped)
+            fail(self.w(s), "statement outside the translated subset")
+        return go(0, env)
+
+    # -- places: a `mut` local / `self` followed by fields and indices
+    def place_root(self, p):
+        while p.kind in ("field", "index", "paren"):
+            p = p.e
+        return p
+
+    def is_place(self, p, env):
+        r = self.place_root(p)
+        return (r.kind == "var" and r.name in env) or (r.kind == "self" and "self" in env)
+
+    def write(self, p, new, new_ty, env, frame, k, node):
+        """lines that store the term `new` into the place `p`, then `k(env)`"""
+        while p.kind == "paren":
+            p = p.e
+        if frame.kind == "pure" and self.place_root(p).kind == "var" and self.place_root(p).name in getattr(frame, "captured", ()):
+            fail(self.w(node), "a write to a captured variable inside this closure is outside the translated subset")
+        if p.kind in ("var", "self"):
+            name = "self" if p.kind == "self" else p.name
+            if name not in env:
+                fail(self.w(node), f"unknown variable `{name}`")
+            if not env[name].mut:
+                fail(self.w(node), f"a write to `{name}`, which is not `mut`")
+            if not seq_same(env[name].ty, new_ty):
+                fail(self.w(node), f"type mismatch: {seq_show(env[name].ty)} vs {seq_show(new_ty)}")
+            if frame.kind != "pure":
+                self.effects += 0
+            return [f"let {lname(name)} := {new}"] + k(env)
+        if p.kind == "field":
+            def got(tp, typ, env2):
+                typ = seq_unref(typ)
+                fty = self.field_ty(typ, p.name, p)
+                if not seq_same(fty, new_ty):
+                    fail(self.w(node), f"type mismatch: field `{p.name}` is {seq_show(fty)}, value {seq_show(new_ty)}")
+                return self.write(p.e, f"{{ {tp} with {lname(p.name)} := {new} }}", typ, env2, frame, k, node)
+            return self.cg(p.e, env, frame, got)
+        if p.kind == "index":
+            def gi(ti, tyi, env2):
+                if seq_unref(tyi) != S_USZ:
+                    fail(self.w(p), f"an index of type {seq_show(tyi)}")
+
+                def gv(tv, tyv, env3):
+                    tyv = seq_unref(tyv)
+                    if tyv[0] != "list" or not seq_same(tyv[1], new_ty):
+                        fail(self.w(node), f"a write through an index into {seq_show(tyv)}")
+                    self.effects += 1
+                    return [f"bnd (vecIdx {atom(tv)} {atom(ti)}) fun _ =>"] + self.write(p.e, f"vecSet {atom(tv)} {atom(ti)} {atom(new)}", tyv, env3, frame, k, node)
+                return self.cg(p.e, env2, frame, gv)
+            return self.cg(p.idx, env, frame, gi)
+        fail(self.w(node), "a write to something that is not a `mut` local, `self`, or a field / element of one")
+
+    def field_ty(self, ty, name, node):
+        ty = seq_unref(ty)
+        if ty is not None and ty[0] == "range" and name in ("start", "end"):
+            return ty[1]
+        if ty is not None and ty[0] == "st":
+            for fn, ft in self.fields[ty[1]]:
+                if fn == name:
+                    return ft
+        fail(self.w(node), f"field `{name}` of {seq_show(ty)} is outside the translated subset")
+
+    def assign(self, s, env, frame, rest):
+        if not self.is_place(s.place, env):
+            fail(self.w(s), "assignment to something that is not a `mut` local, `self`, or a field / element of one")
+
+        def got(term, ty, env2):
+            if s.op is None:
+                return self.write(s.place, term, ty, env2, frame, rest, s)
+            if s.op != "+" or seq_unref(ty) != S_USZ:
+                fail(self.w(s), f"`{s.op}=` is translated on `usize` with `+` only")
+
+            def old(t0, ty0, env3):
+                if seq_unref(ty0) != S_USZ:
+                    fail(self.w(s), "`+=` on a non-usize place")
+                v = self.fresh()
+                self.effects += 1
+                return [f"bnd (add .usize {self.site(s)} {atom(t0)} {atom(term)}) fun {v} =>"] + self.write(s.place, v, S_USZ, env3, frame, rest, s)
+            return self.cg(s.place, env2, frame, old)
+        return self.cg(s.e, env, frame, got)
+
+    def while_(self, s, env, frame, rest):
+        if frame.kind == "pure":
+            fail(self.w(s), "a loop inside a closure is outside the translated subset")
+        used = set()
+        seq_idents(s, used)
+        if self.has_self(s):
+            used.add("self")
+        self.fuel = True
+        fixed = [n for n in env if not env[n].mut and n in used]
+        state = [n for n in env if env[n].mut]
+        # the continuation of an `if` is generated once per branch: the same loop met again (same variables) is the same definition
+        cache = self.__dict__.setdefault("loops", {})
+        sig_ = (tuple(fixed), tuple(state), tuple(repr(env[n].ty) for n in fixed + state))
+        again_only = id(s) in cache and cache[id(s)][1] == sig_
+        if id(s) in cache and not again_only:
+            fail(self.w(s), "the same loop is reached with two different sets of variables: outside the translated subset")
+        if not again_only:
+            self.nloop += 1
+            cache[id(s)] = (f"{self.lean_name}.loop{self.nloop}", sig_)
+        fname = cache[id(s)][0]
+        lf = SchedFrame("loop", state, frame.ret_ty)
+        env_b = {n: env[n] for n in fixed + state}
+        again = f"{fname}⟦EXT⟧ " + " ".join([lname(n) for n in fixed] + ["fuel"] + [lname(n) for n in state])
+        exit_ = [f".ok (.next {seq_tuple(state)})"]
+
+        def body_k(term, ty, env2):
+            if ty is None or ty[0] != "unit":
+                fail(self.w(s), "the loop body has a value")
+            return [again]
+
+        def cond(c, tc, env2):
+            if s.name is None:
+                if seq_unref(tc) != BOOL:
+                    fail(self.w(s), "the condition of `while` is not a bool")
+                body = self.block(s.body, env2, lf, body_k)
+                return [f"if {c} then ("] + ["  " + x for x in body] + ["  )", "else ("] + ["  " + x for x in exit_] + ["  )"]
+            tc = seq_unref(tc)
+            if tc is None or tc[0] != "opt" or tc[1] is None:
+                fail(self.w(s), f"`while let Some(..)` on {seq_show(tc)}")
+            if s.name in env2:
+                fail(self.w(s), f"the loop variable `{s.name}` shadows another variable")
+            body = self.block(s.body, env2, lf, body_k, bind=(s.name, tc[1]))
+            return [f"match {c} with", f"| some {lname(s.name)} => ("] + ["  " + x for x in body] + ["  )", "| none => ("] + ["  " + x for x in exit_] + ["  )"]
+        body = self.cg(s.c, env_b, lf, cond)
+        rty = seq_lty(seq_unref(frame.ret_ty), False)
+        sty = seq_tuple_ty([seq_unref(env[n].ty) for n in state])
+        ps = [f"({lname(n)} : {seq_lty(seq_unref(env[n].ty))})" for n in fixed] + ["(fuel : Nat)"] + [f"({lname(n)} : {seq_lty(seq_unref(env[n].ty))})" for n in state]
+        where = self.w(s)
+        what = f"while let Some({s.name}) = .." if s.name else "while .."
+
+        def emit():
+            ex = [f"({n} : {t})" for n, t in sorted(self.externs.items())]
+            return [f"/-- the loop `{what}` of `{self.node.name}` ({where}); `fuel` = the number of iterations allowed; `.ret v s` = `return v` inside the body, "
+                    f"`.next s` = the condition failed; `s` = ({', '.join(state)}) -/",
+                    f"def {fname} {SCHED_BINDER} {' '.join(ps + ex)} : R (Flow {rty} ({sty})) :=",
+                    "  match fuel with", "  | 0 => .error (.panic loopFuelExhausted)", "  | fuel + 1 =>"] + ["    " + x for x in body]
+        if not again_only:
+            self.aux.append(emit)
+        self.effects += 1
+        t, v = self.fresh(), self.fresh()
+        pat = seq_tuple(state)
+        lines = [f"bnd ({again}) fun {t} =>", f"match {t} with", f"| .ret {v} {pat} => ("]
+        lines += ["  " + x for x in self.emit_return(frame, v, frame.ret_ty, s)] + ["  )", f"| .next {pat} =>"]
+        return lines + rest(env)
+
+    def has_self(self, node):
+        if isinstance(node, Node):
+            if node.kind == "self":
+                return True
+            return any(self.has_self(v) for v in node.__dict__.values())
+        if isinstance(node, (list, tuple)):
+            return any(self.has_self(v) for v in node)
+        if isinstance(node, dict):
+            return any(self.has_self(v) for v in node.values())
+        return False
+
+    # -- closures
+    def closure_fun(self, c, ptys, env, state=()):
+        """the Lean function of a closure without effects; `state`: captured `mut` variables the closure may write (they are
+        extra leading parameters, and the result is paired with them) -> (term, result type)"""
+        if c.kind != "closure" or len(c.params) != len(ptys):
+            fail(self.w(c), f"expected a closure with {len(ptys)} parameter(s)")
+        fr = SchedFrame("pure")
+        env2 = {n: SchedVar(v.ty, n in state, v.blk) for n, v in env.items()}
+        fr.captured = [n for n in env if n not in state]
+        for (pn, mut), pt in zip(c.params, ptys):
+            if pn in env:
+                fail(self.w(c), f"the closure parameter `{pn}` shadows another variable")
+            env2[pn] = SchedVar(pt, mut, -1)
+        before = self.effects
+        box = []
+
+        def fin(term, ty, en):
+            box.append(ty)
+            return [f"({term}, {seq_tuple(state)})" if state else term]
+        lines = self.block(c.body, env2, fr, fin)
+        if self.effects != before:
+            fail(self.w(c), "a closure with an operation that can fail (index, unwrap, arithmetic, loop, call) is outside the translated subset")
+        tys = [t for t in box if t is not None]
+        rt = None
+        for t in box:
+            if rt is None or (rt[0] == "opt" and rt[1] is None):
+                rt = t if t is not None else rt
+            elif t is not None and not seq_same(rt, t):
+                fail(self.w(c), f"the branches of the closure have different types: {seq_show(rt)}, {seq_show(t)}")
+        if rt is None:
+            fail(self.w(c), "the result type of the closure is not determined")
+        body = " ".join(x.strip() + (";" if x.strip().startswith("let ") else "") for x in lines)
+        ps = [f"({lname(n)} : {seq_lty(seq_unref(env[n].ty))})" for n in state] + [f"({lname(pn)} : {seq_lty(seq_unref(pt))})" for (pn, _), pt in zip(c.params, ptys)]
+        return f"(fun {' '.join(ps)} => {body})", rt
+
+    def assigned_captures(self, node, env, acc):
+        if isinstance(node, Node):
+            if node.kind == "assign":
+                r = self.place_root(node.place)
+                if r.kind == "var" and r.name in env:
+                    acc.add(r.name)
+            if node.kind == "refmut":
+                r = self.place_root(node.e)
+                if r.kind == "var" and r.name in env:
+                    acc.add(r.name)
+            for v in node.__dict__.values():
+                self.assigned_captures(v, env, acc)
+        elif isinstance(node, (list, tuple)):
+            for v in node:
+                self.assigned_captures(v, env, acc)
+        elif isinstance(node, dict):
+            for v in node.values():
+                self.assigned_captures(v, env, acc)
+        return acc
+
+    # -- expressions: `k(term, type, env)` continues with the value
+    def cg(self, e, env, frame, k):
+        kind, w = e.kind, self.w(e)
+        if kind == "paren":
+            return self.cg(e.e, env, frame, lambda t, ty, en: k(atom(t), ty, en))
+        if kind in ("ref", "deref"):
+            return self.cg(e.e, env, frame, k)  # a shared reference to a value is the value
+        if kind == "var":
+            if e.name not in env:
+                fail(w, f"unknown variable `{e.name}`")
+            return k(lname(e.name), env[e.name].ty, env)
+        if kind == "self":
+            if "self" not in env:
+                fail(w, "`self` in a function without receiver")
+            return k("self", env["self"].ty, env)
+        if kind == "tmpvar":
+            return k(e.term, e.ty, env)
+        if kind == "bool":
+            return k("true" if e.value else "false", BOOL, env)
+        if kind == "lit":
+            if e.suffix not in (None, "usize"):
+                fail(w, "an integer literal that is not a `usize` is outside the translated subset (schedule functions)")
+            return k(str(e.value), S_USZ, env)
+        if kind == "none":
+            if getattr(e, "result", False):
+                fail(w, "`Err(..)` is outside the translated subset")
+            return k("none", T("opt", None), env)
+        if kind == "some":
+            if getattr(e, "result", False):
+                fail(w, "`Ok(..)` is outside the translated subset")
+            return self.cg(e.e, env, frame, lambda t, ty, en: k(f"some {atom(t)}", T("opt", seq_unref(ty)), en))
+        if kind == "range":
+            if e.incl:
+                fail(w, "`..=` is outside the translated subset (schedule functions)")
+            return self.cg(e.l, env, frame, lambda a, ta, en: self.cg(e.r, en, frame, lambda b, tb, en2: k(f"Range.mk {atom(a)} {atom(b)}", T("range", seq_unref(ta)), en2)
+                           if seq_same(ta, tb) and seq_unref(ta) == S_TIME else fail(w, f"a range of {seq_show(ta)} .. {seq_show(tb)}")))
+        if kind == "variant":
+            path = f"{e.enum}::{e.name}"
+            if e.enum == "Self":
+                if e.name not in self.consts:
+                    fail(w, f"`Self::{e.name}` is not an associated constant of the form `const NAME: T = PATH;`")
+                path = self.consts[e.name]
+            if path not in SCHED_CONSTS:
+                fail(w, f"constant `{path}` is outside the translated subset")
+            tk_, pname = SCHED_CONSTS[path]
+            need = path.split("::")[0]
+            if not any(n == need for _, n in self.uses):
+                fail(w, f"`{need}` is not imported by the file")
+            return k(self.ext(pname, seq_lty(T(tk_))), T(tk_), env)
+        if kind == "field":
+            return self.cg(e.e, env, frame, lambda t, ty, en: k(f"{atom(t)}.{lname(e.name)}", self.field_ty(ty, e.name, e), en))
+        if kind == "index":
+            def gi(ti, tyi, en):
+                if seq_unref(tyi) != S_USZ:
+                    fail(w, f"an index of type {seq_show(tyi)}")
+
+                def gv(tv, tyv, en2):
+                    tyv = seq_unref(tyv)
+                    if tyv is None or tyv[0] != "list":
+                        fail(w, f"an index into {seq_show(tyv)}")
+                    v = self.fresh()
+                    self.effects += 1
+                    return [f"bnd (vecIdx {atom(tv)} {atom(ti)}) fun {v} =>"] + k(v, tyv[1], en2)
+                return self.cg(e.e, en, frame, gv)
+            # Rust evaluates the indexed place first, then the index; both are without effects other than a panic here
+            return self.cg(e.idx, env, frame, gi)
+        if kind == "structlit":
+            name = self.impl_ty if e.name == "Self" else e.name
+            if name not in self.fields:
+                fail(w, f"constructor `{e.name} {{ .. }}` is outside the translated subset")
+            decl = self.fields[name]
+            if sorted(fn for fn, _ in e.fields) != sorted(fn for fn, _ in decl):
+                fail(w, f"`{e.name} {{ .. }}` does not give exactly the fields of the struct")
+
+            def go(i, acc, en):
+                if i == len(e.fields):
+                    return k(f"{{ {', '.join(f'{lname(fn)} := {t}' for fn, t in acc)} : {seq_lty(S_ST(name))} }}", S_ST(name), en)
+                fn, fe = e.fields[i]
+                want = dict(decl)[fn]
+
+                def got(t, ty, en2):
+                    if not seq_same(ty, want):
+                        fail(w, f"type mismatch: field `{fn}` is {seq_show(want)}, value {seq_show(ty)}")
+                    return go(i + 1, acc + [(fn, t)], en2)
+                return self.cg(fe, en, frame, got)
+            return go(0, [], env)
+        if kind == "not":
+            return self.cg(e.e, env, frame, lambda t, ty, en: k(f"!{atom(t)}", BOOL, en) if seq_unref(ty) == BOOL else fail(w, "`!` on a non-bool"))
+        if kind == "bin":
+            return self.binop(e, env, frame, k)
+        if kind == "if":
+            def cond(c, tc, en):
+                if seq_unref(tc) != BOOL:
+                    fail(w, "the condition of `if` is not a bool")
+                a = self.block(e.a, en, frame, k)
+                b = k("()", UNIT, en) if e.b is None else self.block(e.b, en, frame, k)
+                return [f"if {c} then ("] + ["  " + x for x in a] + ["  )", "else ("] + ["  " + x for x in b] + ["  )"]
+            return self.cg(e.c, env, frame, cond)
+        if kind == "matchopt":
+            def scrut(t, ty, en):
+                ty = seq_unref(ty)
+                if ty is None or ty[0] != "opt" or ty[1] is None:
+                    fail(w, f"`match .. {{ None => .., Some(x) => .. }}` on {seq_show(ty)}")
+                name, sb = [(a[1], a[2]) for a in e.arms if a[0] == "some"][0]
+                if name in en:
+                    fail(w, f"`{name}` shadows another variable")
+                a = self.block(sb, en, frame, k, bind=(name, ty[1]))
+                b = self.block([a[2] for a in e.arms if a[0] == "none"][0], en, frame, k)
+                return [f"match {t} with", f"| some {lname(name)} => ("] + ["  " + x for x in a] + ["  )", "| none => ("] + ["  " + x for x in b] + ["  )"]
+            return self.cg(e.scrut, env, frame, scrut)
+        if kind == "blockexpr":
+            return self.block(e.b, env, frame, k)
+        if kind == "return":
+            return self.cg(e.e, env, frame, lambda t, ty, en: self.emit_return(frame, t, ty, e))
+        if kind == "call":
+            return self.call(e, env, frame, k)
+        if kind == "method":
+            return self.method(e, env, frame, k)
+        fail(w, f"this expression ({kind}) is outside the translated subset (schedule functions)")
+
+    def binop(self, e, env, frame, k):
+        op, w = e.op, self.w(e)
+        if op in ("&&", "||"):
+            def lhs(a, ta, en):
+                box = []
+                before = self.effects
+                r = self.cg(e.r, en, frame, lambda b, tb, en2: box.append((b, tb)) or [])
+                if r or len(box) != 1 or self.effects != before:
+                    fail(w, f"an operand of `{op}` with effects is outside the translated subset")
+                b, tb = box[0]
+                if seq_unref(ta) != BOOL or seq_unref(tb) != BOOL:
+                    fail(w, f"`{op}` on non-bool operands")
+                return k(f"({a} {op} {b})", BOOL, en)
+            return self.cg(e.l, env, frame, lhs)
+
+        def lhs(a, ta, en):
+            def rhs(b, tb, en2):
+                ua, ub = seq_unref(ta), seq_unref(tb)
+                if op == "+":
+                    if ua != S_USZ or ub != S_USZ:
+                        fail(w, "`+` is translated on `usize` only (schedule functions)")
+                    v = self.fresh()
+                    self.effects += 1
+                    return [f"bnd (add .usize {self.site(e)} {atom(a)} {atom(b)}) fun {v} =>"] + k(v, S_USZ, en2)
+                if op in ("<", "<=", ">", ">="):
+                    if not seq_same(ua, ub) or ua not in (S_USZ, S_TIME):
+                        fail(w, f"`{op}` on {seq_show(ua)} and {seq_show(ub)} is outside the translated subset")
+                    return k(f"decide ({atom(a)} {op.replace('<=', '≤').replace('>=', '≥')} {atom(b)})", BOOL, en2)
+                if op in ("==", "!="):
+                    ok = seq_same(ua, ub) and (ua in (S_USZ, S_TIME, S_KIND, BOOL) or (ua[0] == "opt" and (ua[1] or ub[1]) in (S_TIME, S_KIND, S_USZ)))
+                    if not ok:
+                        fail(w, f"`{op}` on {seq_show(ua)} and {seq_show(ub)} is outside the translated subset")
+                    return k(f"decide ({atom(a)} {'=' if op == '==' else '≠'} {atom(b)})", BOOL, en2)
+                fail(w, f"operator `{op}` is outside the translated subset (schedule functions)")
+            return self.cg(e.r, en, frame, rhs)
+        return self.cg(e.l, env, frame, lhs)
+
+    def args(self, es, env, frame, k, acc=None):
+        acc = acc or []
+        if len(acc) == len(es):
+            return k(acc, env)
+        return self.cg(es[len(acc)], env, frame, lambda t, ty, en: self.args(es, en, frame, k, acc + [(t, ty)]))
+
+    def imported(self, mod, name):
+        return (mod, name) in self.uses
+
+    def call(self, e, env, frame, k):
+        w, path = self.w(e), e.path
+        p = "::".join(path)
+        if p in ("std::cmp::max", "std::cmp::min") or (p in ("max", "min") and self.imported("std::cmp", p)):
+            fn = "cmpMax" if path[-1] == "max" else "cmpMin"
+
+            def got(a, en):
+                if len(a) != 2 or not seq_same(a[0][1], a[1][1]) or seq_unref(a[0][1]) not in (S_TIME, S_USZ):
+                    fail(w, f"`{path[-1]}` takes two values of an ordered type")
+                return k(f"{fn} {atom(a[0][0])} {atom(a[1][0])}", seq_unref(a[0][1]), en)
+            return self.args(e.args, env, frame, got)
+        if p == "std::mem::take" or (p == "take" and self.imported("std::mem", "take")):
+            if len(e.args) != 1 or e.args[0].kind != "refmut" or not self.is_place(e.args[0].e, env):
+                fail(w, "`take` needs `&mut place`")
+            place = e.args[0].e
+
+            def old(t, ty, en):
+                if seq_unref(ty) != S_COMM:
+                    fail(w, f"`take` of a {seq_show(ty)} is outside the translated subset")
+                v = self.fresh()
+                d = self.ext("ext_comments_default", "Comments")
+                return [f"let {v} := {t}"] + self.write(place, d, S_COMM, en, frame, lambda en2: k(v, S_COMM, en2), e)
+            return self.cg(place, env, frame, old)
+        if p == "UniqueSortedVec::new":
+            if e.args or not self.imported("opening_hours_syntax::sorted_vec", "UniqueSortedVec"):
+                fail(w, "`UniqueSortedVec::new()`")
+            return k(self.ext("ext_comments_new", "Comments"), S_COMM, env)
+        if len(path) == 2 and (path[0] in SCHED_STRUCTS or path[0] == "Self"):
+            ty = self.impl_ty if path[0] == "Self" else path[0]
+            return self.call_translated(e, ty, path[1], None, e.args, env, frame, k)
+        fail(w, f"call of `{p}`, which is not translated (schedule functions)")
+
+    def call_translated(self, e, ty, name, recv, args, env, frame, k):
+        """a call of a translated function (the generated definition, its named parameters passed on by name), of the
+        function being translated (recursion: one unit of fuel), or of an untranslated one of SCHED_FN_HOLES"""
+        w = self.w(e)
+        if frame.kind == "pure":
+            fail(w, "a call inside a closure is outside the translated subset")
+        rec = (ty == self.impl_ty and name == self.node.name)
+        if rec:
+            f = self.node
+            sig = dict(has_self=f.has_self, mut_self=f.mut_self, params=[pt for _, pt, _ in f.params], ret=f.ret, externs=None, fuel=True)
+            self.recursive = True
+        elif (ty, name) in self.sigs:
+            sig = self.sigs[(ty, name)]
+        else:
+            fail(w, f"call of `{ty}::{name}`, which is not a translated function")
+        if sig["mut_self"]:
+            if recv is None or recv.kind != "self" or not env["self"].mut:
+                fail(w, f"the `&mut self` method `{name}` is translated only when called on `self`")
+        if (recv is not None) != sig["has_self"]:
+            fail(w, f"`{ty}::{name}`: receiver mismatch")
+        all_args = ([recv] if recv is not None else []) + list(args)
+        want = ([S_ST(ty)] if recv is not None else []) + sig["params"]
+        if len(all_args) != len(want):
+            fail(w, f"`{name}` takes {len(sig['params'])} argument(s)")
+
+        def got(a, en):
+            for (t, tyx), wt in zip(a, want):
+                if not seq_same(tyx, wt):
+                    fail(w, f"type mismatch in the call of `{name}`: {seq_show(wt)} vs {seq_show(tyx)}")
+            if rec:
+                named = "⟦EXT⟧"
+            else:
+                for n, t in sig["externs"].items():
+                    self.ext(n, t)
+                named = self.ext_args(sig["externs"])
+            if sig["fuel"]:
+                self.fuel = True
+            callee = f"{ty}.{name}{named}" + "".join(" " + atom(t) for t, _ in a) + (" fuel" if sig["fuel"] else "")
+            v = self.fresh()
+            self.effects += 1
+            if sig["mut_self"]:
+                return [f"bnd ({callee}) fun {v} =>", f"let self := {v}.2"] + k(f"{v}.1", sig["ret"], en)
+            return [f"bnd ({callee}) fun {v} =>"] + k(v, sig["ret"], en)
+        return self.args(all_args, env, frame, got)
+
+    def lazy(self, ty):
+        return ty is not None and ty[0] == "iter" and ty[-1] == "lazy"
+
+    def method(self, e, env, frame, k):
+        w, name, recv = self.w(e), e.name, e.e
+        while recv.kind == "paren":
+            recv = recv.e
+
+        def nargs(n):
+            if len(e.args) != n:
+                fail(w, f"`.{name}()` takes {n} argument(s)")
+        # methods that write to the place they are called on
+        if name in ("next", "pop", "remove", "push", "extend", "sort_unstable_by_key") and self.is_place(recv, env):
+            def on_place(t, ty, en):
+                ty = seq_unref(ty)
+                k0 = ty[0] if ty else None
+                if name == "next" and k0 == "iter" and not self.lazy(ty):
+                    nargs(0)
+                    v = self.fresh()
+                    return [f"let {v} := iterNext {atom(t)}"] + self.write(recv, f"{v}.2", ty, en, frame, lambda en2: k(f"{v}.1", T("opt", ty[1]), en2), e)
+                if name == "pop" and k0 == "list":
+                    nargs(0)
+                    v = self.fresh()
+                    return [f"let {v} := seqPop {atom(t)}"] + self.write(recv, f"{v}.2", ty, en, frame, lambda en2: k(f"{v}.1", T("opt", ty[1]), en2), e)
+                if name == "remove" and k0 == "list":
+                    nargs(1)
+
+                    def gi(ti, tyi, en2):
+                        if seq_unref(tyi) != S_USZ:
+                            fail(w, "`.remove(i)` with an index that is not a usize")
+                        v = self.fresh()
+                        self.effects += 1
+                        return [f"bnd (vecRemove {atom(t)} {atom(ti)}) fun {v} =>"] + self.write(recv, f"{v}.2", ty, en2, frame, lambda en3: k(f"{v}.1", ty[1], en3), e)
+                    return self.cg(e.args[0], en, frame, gi)
+                if name == "push" and k0 == "list":
+                    nargs(1)
+                    return self.cg(e.args[0], en, frame, lambda a, ta, en2: self.write(recv, f"{atom(t)} ++ [{a}]", ty, en2, frame, lambda en3: k("()", UNIT, en3), e)
+                                   if seq_same(ta, ty[1]) else fail(w, f"`.push(..)` of a {seq_show(ta)}"))
+                if name == "extend" and k0 == "list":
+                    nargs(1)
+                    return self.cg(e.args[0], en, frame, lambda a, ta, en2: self.write(recv, f"{atom(t)} ++ {atom(a)}", ty, en2, frame, lambda en3: k("()", UNIT, en3), e)
+                                   if seq_unref(ta)[0] in ("iter", "list") and not self.lazy(seq_unref(ta)) and seq_same(seq_unref(ta)[1], ty[1]) else fail(w, f"`.extend(..)` of a {seq_show(ta)}"))
+                if name == "sort_unstable_by_key" and k0 == "list":
+                    nargs(1)
+                    c = e.args[0]
+                    ok = c.kind == "closure" and len(c.params) == 1 and not c.body.stmts and c.body.tail is not None
+                    if ok:
+                        b, x = c.body.tail, c.params[0][0]
+                        ok = b.kind == "field" and b.name == "start" and b.e.kind == "field" and b.e.name == "range" and b.e.e.kind == "var" and b.e.e.name == x
+                    if not ok or ty[1] != S_ST("TimeRange") or frame.kind != "fn":
+                        fail(w, "the argument of `sort_unstable_by_key` has to be `|x| x.range.start` on a `Vec<TimeRange>` (an EXTERN whose contract is: sorted by that key)")
+                    lt = seq_lty(ty, False)
+                    x = self.ext("ext_sort_unstable_by_key_range_start", f"{lt} → {lt}")
+                    return self.write(recv, f"{x} {atom(t)}", ty, en, frame, lambda en2: k("()", UNIT, en2), e)
+                fail(w, f"method `.{name}()` on {seq_show(ty)} is outside the translated subset (schedule functions)")
+            return self.cg(recv, env, frame, on_place)
+        # a call of a translated method (or of the function itself)
+        def on_any(t, ty, en):
+            ty0 = seq_unref(ty)
+            if ty0 is not None and ty0[0] == "st" and ((ty0[1], name) in self.sigs or (ty0[1] == self.impl_ty and name == self.node.name)):
+                fake = Node("self", e.line) if recv.kind == "self" else Node("tmpvar", e.line, term=t, ty=ty0)
+                return self.call_translated(e, ty0[1], name, fake, e.args, en, frame, k)
+            return on(t, ty, en)
+
+        def on(t, ty, en):
+            ty = seq_unref(ty)
+            k0 = ty[0] if ty else None
+            elem = ty[1] if k0 in ("list", "iter", "intoiter", "opt") else None
+            if name == "into_iter" and k0 in ("intoiter", "list", "iter"):
+                nargs(0)
+                return k(t, T("iter", elem), en)
+            if name == "iter" and k0 == "list":
+                nargs(0)
+                return k(t, T("iter", elem), en)
+            if name == "cloned" and k0 == "iter":
+                nargs(0)
+                return k(t, T("iter", elem, "lazy"), en)
+            if name == "peekable" and k0 == "iter" and not self.lazy(ty):
+                nargs(0)
+                return k(t, ty, en)
+            if name == "clone" and k0 in ("acomm", "atime", "akind", "st"):
+                nargs(0)
+                return k(t, ty, en)
+            if name == "collect" and k0 == "iter":
+                nargs(0)
+                return k(t, T("list", elem), en)
+            if name in ("filter", "map", "all") and k0 == "iter":
+                nargs(1)
+                f, rt = self.closure_fun(e.args[0], [elem], en)
+                if name in ("filter", "all") and seq_unref(rt) != BOOL:
+                    fail(w, f"the closure of `.{name}()` does not return a bool")
+                if name == "all":
+                    return k(f"List.all {atom(t)} {f}", BOOL, en)
+                return k(f"List.{name} {f} {atom(t)}", T("iter", elem if name == "filter" else seq_unref(rt), "lazy"), en)
+            if name == "filter_map" and k0 == "iter":
+                nargs(1)
+                state = sorted(self.assigned_captures(e.args[0].body, en, set())) if e.args[0].kind == "closure" else []
+                for n in state:
+                    if not en[n].mut:
+                        fail(w, f"the closure writes to `{n}`, which is not `mut`")
+                f, rt = self.closure_fun(e.args[0], [elem], en, state)
+                rt = seq_unref(rt)
+                if rt[0] != "opt" or rt[1] is None:
+                    fail(w, "the closure of `.filter_map()` does not return an `Option`")
+                if not state:
+                    return k(f"List.filterMap {f} {atom(t)}", T("iter", rt[1], "lazy"), en)
+                if len(state) != 1:
+                    fail(w, "a `filter_map` closure writing to two captured variables is outside the translated subset")
+                # the chain must be collected at once (checked by `let`: a lazy iterator cannot be bound); the captured
+                # variable is threaded through the elements in order
+                v = self.fresh()
+                return [f"let {v} := filterMapS {f} {lname(state[0])} {atom(t)}", f"let {lname(state[0])} := {v}.2"] + k(f"{v}.1", T("iter", rt[1], "lazy"), en)
+            if name == "peek" and k0 == "iter" and not self.lazy(ty):
+                nargs(0)
+                return k(f"List.head? {atom(t)}", T("opt", elem), en)
+            if name == "last" and k0 == "list":
+                nargs(0)
+                return k(f"vecLast {atom(t)}", T("opt", elem), en)
+            if name == "len" and k0 == "list":
+                nargs(0)
+                return k(f"vecLen {atom(t)}", S_USZ, en)
+            if name == "is_empty" and k0 == "list":
+                nargs(0)
+                return k(f"List.isEmpty {atom(t)}", BOOL, en)
+            if name == "map" and k0 == "opt" and elem is not None:
+                nargs(1)
+                f, rt = self.closure_fun(e.args[0], [elem], en)
+                return k(f"Option.map {f} {atom(t)}", T("opt", seq_unref(rt)), en)
+            if name == "unwrap_or" and k0 == "opt" and elem is not None:
+                nargs(1)
+                return self.cg(e.args[0], en, frame, lambda a, ta, en2: k(f"Option.getD {atom(t)} {atom(a)}", elem, en2)
+                               if seq_same(ta, elem) else fail(w, f"`.unwrap_or(..)`: {seq_show(elem)} vs {seq_show(ta)}"))
+            if name == "unwrap" and k0 == "opt" and elem is not None:
+                nargs(0)
+                v = self.fresh()
+                self.effects += 1
+                return [f"match {t} with", "| none => .error (.panic \"called `Option::unwrap()` on a `None` value\")", f"| some {v} =>"] + k(v, elem, en)
+            if name == "union" and k0 == "acomm":
+                nargs(1)
+                x = self.ext("ext_union", "Comments → Comments → Comments")
+                return self.cg(e.args[0], en, frame, lambda a, ta, en2: k(f"{x} {atom(t)} {atom(a)}", S_COMM, en2)
+                               if seq_unref(ta) == S_COMM else fail(w, f"`.union(..)` of a {seq_show(ta)}"))
+            fail(w, f"method `.{name}()` on {seq_show(ty)} is outside the translated subset (schedule functions)")
+        return self.cg(recv, env, frame, on_any)
+
+
+def sched_struct(tk, rel, name, parser):
+    texts = [x.text for x in tk]
+    hits = [i for i in range(len(texts) - 2) if texts[i] == "struct" and texts[i + 1] == name and texts[i + 2] == "{"]
+    if len(hits) != 1:
+        fail(rel, f"`struct {name} {{ .. }}` not found")
+    parser.i = hits[0] + 3
+    fields = []
+    while not parser.at("}"):
+        if parser.at("pub"):
+            parser.i += 1
+            if parser.at("("):
+                parser.i = matching(parser.t, parser.i) + 1
+        fn = parser.ident()
+        parser.eat(":")
+        ft = parser.type_()
+        if ft is None:
+            fail(parser.where(), "field of type `_`")
+        fields.append((fn, ft))
+        if not parser.at("}"):
+            parser.eat(",")
+    return fields, tk[hits[0]].line
+
+
+def sched_section(toks, raw):
+    """the Lean text (lines) of the SCHED_TARGETS; `toks(rel)` = the tokens of a file without attributes, `raw(rel)` with"""
+    tk = toks(F_SCHED)
+    uses = file_uses(tk)
+    for imp in sorted(SCHED_IMPORTS):
+        if imp not in uses:
+            fail(F_SCHED, f"`use {imp[0]}::{imp[1]};` not found: the name `{imp[1]}` is read as that item")
+    for name, (_, _, rel, need) in SCHED_ABSTRACT.items():
+        toks(rel)
+        got = derives_of(raw(rel), name)
+        if not need <= got:
+            fail(rel, f"`{name}` is an abstract ordered / comparable type in schedule.rs: it has to derive {sorted(need)}, found {sorted(got)}")
+    texts = [x.text for x in tk]
+    L = ["/-! ### [schedule extension] opening-hours/src/schedule.rs -/", "", "namespace Sched", ""]
+    structs = set(SCHED_STRUCTS) | set(SCHED_ABSTRACT) | {"UniqueSortedVec"}
+    fields = {}
+    for name in SCHED_STRUCTS:
+        p = SchedParser(tk, F_SCHED, structs, uses=std_uses(tk))
+        fields[name], line = sched_struct(tk, F_SCHED, name, p)
+        L += [f"/-- `struct {name}` ({F_SCHED}:{line}) -/", f"structure {name} (Time Kind Comments : Type) where"]
+        L += [f"  {lname(fn)} : {seq_lty(ft)}" for fn, ft in fields[name]] + [""]
+    sigs = {}
+    for impl_ty, trait, rname in SCHED_TARGETS:
+        where = find_impl_fns(tk, F_SCHED, impl_ty, trait, [rname])
+        p = SchedParser(tk, F_SCHED, structs, uses=std_uses(tk))
+        p.self_t = S_ST(impl_ty)
+        p.item_t = None
+        consts = {}
+        if trait == "Iterator":
+            want = ["type", "Item", "=", "TimeRange", ";"]
+            hdr = ["impl", "Iterator", "for", impl_ty, "{"]
+            o = [i for i in range(len(texts) - 5) if texts[i : i + 5] == hdr]
+            if len(o) != 1 or texts[o[0] + 5 : o[0] + 10] != want:
+                fail(F_SCHED, f"`impl Iterator for {impl_ty} {{ type Item = TimeRange; ..` not found")
+            p.item_t = S_ST("TimeRange")
+        # associated constants `const NAME: T = A::B;` of the inherent impl
+        hdr = ["impl", impl_ty, "{"]
+        for o in [i for i in range(len(texts) - 3) if texts[i : i + 3] == hdr]:
+            end = matching(tk, o + 2)
+            depth = 0
+            for i in range(o + 3, end):
+                if texts[i] == "{":
+                    depth += 1
+                elif texts[i] == "}":
+                    depth -= 1
+                elif depth == 0 and texts[i] == "const":
+                    if texts[i + 2] != ":" or texts[i + 4] != "=" or texts[i + 6] != "::" or texts[i + 8] != ";":
+                        fail(f"{F_SCHED}:{tk[i].line}", "an associated constant that is not `const NAME: T = A::B;` is outside the translated subset")
+                    consts[texts[i + 1]] = f"{texts[i + 5]}::{texts[i + 7]}"
+        p.i = where[rname]
+        node = p.seq_fn()
+        g = SchedGen(F_SCHED, impl_ty, node, S_ST(impl_ty), fields, sigs, uses, consts)
+        L += g.gen() + [""]
+        sigs[(impl_ty, rname)] = dict(has_self=node.has_self, mut_self=node.mut_self, params=[pt for _, pt, _ in node.params], ret=node.ret,
+                                      externs=dict(g.externs), fuel=g.fuel)
+    L += ["end Sched", ""]
     return L
 
 
